@@ -261,6 +261,7 @@ def run(prog: Program) -> Results:
         probs = [(x, "name is not bound anywhere", x.id, "NameError") for x in lints.undefined_names(prog, f)]
         probs += [(x, "attribute is not defined by the class", x.attr, "AttributeError") for x in lints.unknown_self_attributes(prog, f)]
         probs += [(c, why, norm(c.func)[:30], "TypeError") for c, why in lints.signature_mismatches(prog, f)]
+        probs += [(rn, why, "return shape", "TypeError") for rn, why in lints.return_shape_mismatches(prog, f)]
         r6.ob(not probs, None if not probs else {"site": k, "problems": [p_[1] for p_ in probs][:3]})
         for node, why, what, exc in probs:
             res.add("R-C20-6", (k, why.split(" [")[0][:60], what), f.loc(node),
@@ -301,6 +302,18 @@ def run(prog: Program) -> Results:
             res.add("R-C20-9", (k, "predicate converts the node it inspects"), f.loc(),
                     f"{k} (a yes/no question) reaches {conv[:3]}: the caller converts the same subtree again after the answer, so every "
                     f"level of nesting is parsed twice — `f a0 a1 … a17` takes seconds")
+    # ---------------------------------------------------------------- R-C20-10 regular expressions backtrack linearly
+    r10 = res.rule("R-C20-10", "no regular expression in the package nests an unbounded repeat inside another (`(a+)*`, "
+                   "`(?:[ \\t]+|\\r)*`): on a run of matching characters followed by a mismatch such a pattern backtracks 2^k times, and "
+                   "gap classification applies its patterns to raw gap text of any length", floor=5)
+    for mod, call, pat, bad in lints.redos_patterns(prog):
+        r10.instances += 1
+        r10.ob(not bad, {"module": mod, "pattern": pat[:40]})
+        if bad:
+            res.add("R-C20-10", (mod, "nested unbounded repeat", pat[:40]), f"{mod}:{call.lineno}",
+                    f"{mod}: the pattern {pat!r} repeats a group that itself contains an unbounded repeat: matching k blanks followed by a "
+                    f"non-matching character takes about 2^k steps — an own-line comment indented by ~25 columns in a gap makes "
+                    f"parse/rebuild take seconds")
     from sa.rules import kinds
     kinds.check(prog, res, "R-C20-8")
     res.tables.append(f"sa/rules/c20.py:REVIEWED_UNBOUND ({len(REVIEWED_UNBOUND)} infeasible paths)")
